@@ -186,6 +186,14 @@ var H264 = &cu.Spec{
 	MarkerOnlyLast: true,
 	Stateful:       true,
 	MaxFrameBytes:  famH264.maxAU,
+	FrameOfSize: func(n int) cu.Frame {
+		b := make([]byte, n)
+		for i := range b {
+			b[i] = byte(i*13 + 1)
+		}
+		copy(b, []byte{0x65})
+		return cu.Frame{b}
+	},
 	RetainBound:    2*famH264.maxAU + 65536,
 	PickMax:        famH264.pickMax,
 	Classify:       classify(rtph264.ErrMorePacketsNeeded, rtph264.ErrNonStartingPacketAndNoPrevious),
@@ -220,6 +228,14 @@ var H265 = &cu.Spec{
 	MarkerOnlyLast: true,
 	Stateful:       true,
 	MaxFrameBytes:  famH265.maxAU,
+	FrameOfSize: func(n int) cu.Frame {
+		b := make([]byte, n)
+		for i := range b {
+			b[i] = byte(i*13 + 1)
+		}
+		copy(b, []byte{0x26, 0x01})
+		return cu.Frame{b}
+	},
 	RetainBound:    2*famH265.maxAU + 65536,
 	PickMax:        famH265.pickMax,
 	Classify:       classify(rtph265.ErrMorePacketsNeeded, rtph265.ErrNonStartingPacketAndNoPrevious),
